@@ -150,8 +150,10 @@ def classify_accept(orig, kind, pos, mutated):
     return None
 
 
-def classify_followup(b):
+def classify_followup(b, tail=(), missing=(), statuses=()):
     """why a malformed piece b keeps later valid frames from being delivered: known causes only"""
+    if 1 in statuses:           # an exception was logged by the reader while these bytes were in its buffer
+        return "D7-stall-after-raise"
     d = cc.impl_decode(b)
     for _ in range(8):          # frames at the front that decode fine are not the culprit
         if d[0] == 0 and d[1] and 0 < d[2] <= len(b):
@@ -182,7 +184,15 @@ def classify_followup(b):
         except ValueError:
             return None
         if declared != len(seg):
-            return "D8-declared-length-mismatch"
+            avail = len(b) - i + sum(len(t) for t in tail)
+            if declared > avail:
+                # the reader waits for that many bytes: everything behind is held back until they arrive
+                return "D8-oversize-bodylength-waits"
+            # within the bytes available the damage is bounded: at most the next frame is lost
+            if len(missing) <= 1 and (not tail or tail[-1] not in missing or len(tail) == 1):
+                return "D8-declared-length-mismatch"
+            if declared <= 0:
+                return "D8-declared-length-mismatch"
     return None
 
 
@@ -242,7 +252,7 @@ def run(ctx):
         if missing or 2 in r[2]:
             ctx.fail({"chunks": [x.hex() for x in chunks], "kind": c[0]},
                      "a malformed frame kept %d of the 2 following valid frames from being delivered (statuses %s)" % (len(missing), r[2]),
-                     classify_followup(c[4]))
+                     classify_followup(c[4], tail, missing, r[2]))
         if mo is not None and r != mo:
             ctx.disagree({"chunks": [x.hex() for x in chunks]}, [len(r[0]), len(r[1]), r[2]], [len(mo[0]), len(mo[1]), mo[2]], "reader-after-corruption")
 
